@@ -16,7 +16,7 @@ pub fn property() -> Property {
     Property {
         id: "C18",
         level: "exploration",
-        rule: "Bounded-exhaustive matrix: every charset exported by attohttpc::charsets (40) x its labels (canonical name + WHATWG aliases) in lower/upper/mixed case x Content-Type form {`t/s; charset=l`, `t/s;charset=l`, absent, unknown label, no parameter} x default-charset setting {unset, session, request, session overridden by request} x API {text, text_with(other), text_utf8, text_reader with caller buffers 1,2,3,4,5,16,8192} x body kind {valid text in that encoding, random bytes, truncated multi-byte tail, lone surrogates / ISO-2022-JP escape garbage}; plus EVERY single cut offset and the bytewise script of 14 fixed multi-byte bodies (exhaustive; splits every multi-byte sequence at every inner offset) and seeded random cases incl. BOM-prefixed bodies. Oracle: one-shot encoding_rs decode_without_bom_handling with the charset the statement selects; for BOM-prefixed bodies only 'streaming/segmented == unsegmented through the same API'; no API may return Err. Non-trivial: body non-empty; distinct = hash(head, body, segmentation, API, defaults).",
+        rule: "Bounded-exhaustive matrix: every charset exported by attohttpc::charsets (40) x its labels (canonical name + WHATWG aliases) in lower/upper/mixed case x Content-Type form {`t/s; charset=l`, `t/s;charset=l`, absent, unknown label, no parameter} x default-charset setting {unset, session, request, session overridden by request, session reset to None by the request} x API {text, text_with(other), text_utf8, text_reader with caller buffers 1,2,3,4,5,16,8192} x body kind {valid text in that encoding, random bytes, truncated multi-byte tail, lone surrogates / ISO-2022-JP escape garbage}; plus EVERY single cut offset and the bytewise script of 14 fixed multi-byte bodies (exhaustive; splits every multi-byte sequence at every inner offset) and seeded random cases incl. BOM-prefixed bodies. Oracle: one-shot encoding_rs decode_without_bom_handling with the charset the statement selects; for BOM-prefixed bodies only 'streaming/segmented == unsegmented through the same API'; no API may return Err. Non-trivial: body non-empty; distinct = hash(head, body, segmentation, API, defaults).",
         assumptions: &["quoted or second-position charset parameters are not generated", "encoding_rs is the decoding oracle (the statement defines decoding as lossy WHATWG decoding)"],
         min_nontrivial: |t| t.pick(5_000, 100_000),
         gens,
@@ -106,8 +106,10 @@ enum Defaults {
     Session,
     Request,
     Both,
+    /// session default set, request explicitly sets None again
+    SessionThenRequestNone,
 }
-const DEFAULTS: [Defaults; 4] = [Defaults::Unset, Defaults::Session, Defaults::Request, Defaults::Both];
+const DEFAULTS: [Defaults; 5] = [Defaults::Unset, Defaults::Session, Defaults::Request, Defaults::Both, Defaults::SessionThenRequestNone];
 
 #[derive(Clone, Debug, PartialEq)]
 enum Api {
@@ -215,12 +217,15 @@ fn other_charset(cs: Charset, k: u64) -> Charset {
 
 fn fetch(c: &Case) -> Result<attohttpc::Response, attohttpc::Error> {
     let mut sess = Session::new();
-    if matches!(c.defaults, Defaults::Session | Defaults::Both) {
+    if matches!(c.defaults, Defaults::Session | Defaults::Both | Defaults::SessionThenRequestNone) {
         sess.default_charset(c.session_default);
     }
     let mut rb = sess.get("http://origin.test/c18");
     if matches!(c.defaults, Defaults::Request | Defaults::Both) {
         rb = rb.default_charset(c.request_default);
+    }
+    if c.defaults == Defaults::SessionThenRequestNone {
+        rb = rb.default_charset(None);
     }
     rb.send()
 }
@@ -345,7 +350,7 @@ fn select(cs: Charset, label: &str, form: CtForm, defaults: Defaults, k: u64) ->
     let session_default = Some(other_charset(cs, k + 1));
     let request_default = Some(other_charset(cs, k + 2));
     let fallback: (Charset, &'static str) = match defaults {
-        Defaults::Unset => (encoding_rs::WINDOWS_1252, "builtin_default"),
+        Defaults::Unset | Defaults::SessionThenRequestNone => (encoding_rs::WINDOWS_1252, "builtin_default"),
         Defaults::Session => (session_default.unwrap(), "session_default"),
         Defaults::Request | Defaults::Both => (request_default.unwrap(), "request_default"),
     };
@@ -378,8 +383,8 @@ fn matrix_count() -> u64 {
 fn run_matrix(ctx: &mut Ctx, _rng: &mut Rng, index: u64) {
     let labels = all_labels();
     let mut i = index;
-    let defaults = DEFAULTS[(i % 4) as usize];
-    i /= 4;
+    let defaults = DEFAULTS[(i % 5) as usize];
+    i /= 5;
     let form = CT_FORMS[(i % 5) as usize];
     i /= 5;
     let casev = i % 3;
